@@ -27,14 +27,11 @@ META = {
 KINDS = {"none": 0, "complete": 1, "partial": 2, "complete_sub": 3, "partial_sub": 4}
 
 
-def prechecks(tier):
-    return [(H, "shapes", {"pure_pydantic": True})]
-
-
 def plan(tier, seed):
     ct = 150 if tier == "quick" else 900
     P = lambda f, sel, ob, w=1.0: Part(H, f, sel, ct, 30, ob, pure_pydantic=True, weight=w)  # noqa
     parts = [
+        P("shapes", {}, "parse_obj yields nested partial instances, to_partial nested complete instances; constants ignored; mixed operands merge"),
         P("falsy", {}, "no falsy provided value is dropped (either side, with/without overwrite)"),
         P("atoms2", {}, "atomic fields: absent/absent, one side, conflict raises without overwrite, later wins with it; operands unchanged"),
         P("sets2", {}, "sets are united; operands unchanged"),
